@@ -27,7 +27,7 @@ func (S) Info() scen.Info {
 		DistinctSet: "history",
 		Assumptions: []string{
 			"the reference is the same code in a fresh process (refinement against a reference execution); bindnode itself is not modelled",
-			"fidelity clauses (wrap exposes the value, unwrap returns what was built, marshal/unmarshal round trip) are SAMPLED over the fixed vocabulary, not decided; the history-independence clause is what this check decides",
+			"fidelity clauses are checked on every operation for the fixed vocabulary only: both views of a wrapped value (iterators and keyed/positional lookups, absent vs null) against expected content computed from the Go value by a hand-written description of each schema type (shape.go, independent of the library's schema parser and of bindnode); Unwrap of nodes assembled from that expected content at type and representation level; Marshal/Unmarshal round trips",
 			"a refusal to infer a schema (pointers, maps, unions) that is identical in the fresh-process reference is not a violation; such types are bound with explicit schemas only",
 			"ordered-map key order is normalised before Go values are compared (key-sorting codecs canonicalise it)",
 		},
